@@ -212,6 +212,19 @@ def slistUnlinkFrom (h : SHeap) (head n : Nat) : Nat → Nat → SHeap
 def slistMoveFront (h : SHeap) (fuel n head : Nat) : SHeap :=
   slistAdd (slistUnlinkFrom h head n fuel head) n head
 
+/-! ### the `int` counters of `dlist_size`, `dlist_size_reversed`, `slist_size`
+
+`int i = 0; …_for_each(it, head) { i++; } return i;` — the counter is a 32-bit two's-complement
+`int`; `i++` beyond INT_MAX is undefined in C (here it wraps, as with `-fwrapv`).  The C++
+`circular_size` counts in `size_t` (64 bits: more nodes than fit into the address space). -/
+
+def countInt (visited : List Nat) : BitVec 32 := visited.foldl (fun i _ => i + 1) 0
+/-- the value `dlist_size(head)` returns -/
+def dlistSizeC (h : Heap) (fuel head : Nat) : Int := (countInt (dlistToList h fuel head)).toInt
+def dlistSizeReversedC (h : Heap) (fuel head : Nat) : Int := (countInt (dlistToListRev h fuel head)).toInt
+/-- the value `slist_size(head)` returns -/
+def slistSizeC (h : SHeap) (fuel head : Nat) : Int := (countInt (slistToList h fuel head)).toInt
+
 /-! ### hlist (igris/datastruct/hlist.h) -/
 
 /-- where a `struct hlist_node **pprev` can point -/
@@ -304,6 +317,46 @@ def walkEntryRev (h : Heap) (head off : Addr) : Nat → Addr → List Addr
   | fuel + 1, pos => if mcastIn pos off = head then [] else pos :: walkEntryRev h head off fuel (dlistPrevEntry h pos off)
 def dlistForEachEntryReverse (h : Heap) (fuel : Nat) (head off : Addr) : List Addr :=
   walkEntryRev h head off fuel (dlistLastEntry h head off)
+
+/-! ### `hlist_for_each_entry(pos, head, member)` (after `fix: hlist_for_each_entry … mcast_out_or_null`)
+
+`for (pos = mcast_out_or_null(head->first); pos != 0; pos = mcast_out_or_null(pos->member.next))`.
+Pointers are machine words, NULL = 0; a node id IS its address here. -/
+
+/-- a stored `hlist_node *` as a machine word -/
+def ptrOf : Option Nat → Addr
+  | none => 0
+  | some q => BitVec.ofNat 64 q
+/-- `mcast_out_or_null(member_ptr, type, member)`: NULL stays NULL -/
+def mcastOutOrNull (p off : Addr) : Addr := if p = 0 then 0 else p - off
+def hwalkEntry (h : HHeap) (off : Addr) : Nat → Addr → List Addr
+  | 0, _ => []
+  | fuel + 1, pos => if pos = 0 then [] else
+      pos :: hwalkEntry h off fuel (mcastOutOrNull (ptrOf (h.next (mcastIn pos off).toNat)) off)
+def hlistForEachEntry (h : HHeap) (fuel l : Nat) (off : Addr) : List Addr :=
+  hwalkEntry h off fuel (mcastOutOrNull (ptrOf (h.first l)) off)
+
+/-! ### container_of with a side-effecting argument (the NULL-safe pop idiom)
+
+`mcast_out_or_null(slist_pop_first(&head), T, member)`: `mcast_out_or_null` is a GNU statement
+expression that copies its argument into a temporary, `mcast_out` / `mcast_in` mention theirs once —
+the argument expression is evaluated EXACTLY ONCE.  That is the contract the operation language
+assumes: the macros are functions of an already evaluated pointer (`mcastOut`, `mcastIn`,
+`mcastOutOrNull`), so one pop idiom = one pop. -/
+
+/-- `mcast_out_or_null(slist_pop_first(&head), T, member)` -/
+def slistPopFirstEntry (h : SHeap) (head : Nat) (off : Addr) : SHeap × Addr :=
+  let r := slistPopFirst h head
+  (r.1, mcastOutOrNull (ptrOf r.2) off)
+/-- pop helper of the dlist idiom: `n = head->next; if (n == head) return NULL; dlist_del_init(n); return n;` -/
+def dlistPopFirst (h : Heap) (head : Nat) : Heap × Option Nat :=
+  let n := h.next head
+  if n = head then (h, none) else (dlistDelInit h n, some n)
+/-- pop helper of the hlist idiom: `n = head->first; if (!n) return NULL; hlist_del(n); return n;` -/
+def hlistPopFirst (h : HHeap) (l : Nat) : HHeap × Option Nat :=
+  match h.first l with
+  | none => (h, none)
+  | some n => (hlistDel h n, some n)
 
 /-! ### loops whose body may change the list -/
 
